@@ -69,5 +69,17 @@ let par_handler prop = reg prop "Par" (fun ver args obs ->
         | Some h -> let v = h ver rest obs in { v with tags = "parallel" :: v.tags; known = None }
         | None -> { model = []; tags = []; spec = Some ("no handler for " ^ prop ^ "/" ^ op); known = None }))
   | _ -> { model = []; tags = []; spec = Some "malformed Par case"; known = None })
+(* Par2 <prop> <op> <nA> <argsA..> <argsB..>: two different cases at the same time; the first one's observation is checked *)
+let rec take_n n l = if n = 0 then [] else (match l with x :: r -> x :: take_n (n - 1) r | [] -> [])
+let () = reg "C05" "Par2" (fun ver args obs ->
+  match args with
+  | prop :: op :: na :: rest ->
+    (match obs with
+     | "PARMISMATCH" :: _ -> { model = ["the-observation-of-the-call-made-alone"]; tags = ["parallel2"]; spec = Some "a call made while a different call was running on another goroutine gave a different result than alone"; known = None }
+     | _ ->
+       (match Hashtbl.find_opt handlers (prop ^ "/" ^ op) with
+        | Some h -> let v = h ver (take_n (int_of_string na) rest) obs in { v with tags = "parallel2" :: v.tags; known = None }
+        | None -> { model = []; tags = []; spec = Some ("no handler for " ^ prop ^ "/" ^ op); known = None }))
+  | _ -> { model = []; tags = []; spec = Some "malformed Par2 case"; known = None })
 let () = par_handler "C05"
 let () = par_handler "C16"
